@@ -102,6 +102,7 @@ fn degree_cmd(w: &[&str]) -> String {
             while e.propagate_degrees(&env) {}
             show_range(e.degree())
         }
+        "rule" => degree_rule_cmd(&w[1..]),
         "selfcheck" => {
             let all = [Degree::Constant, Degree::Linear, Degree::Quadratic, Degree::NonQuadratic];
             for x in all {
@@ -176,6 +177,116 @@ fn value_cmd(w: &[&str]) -> String {
     }
 }
 
+fn build_node(node: &str, op: usize) -> Expression {
+    use Expression::*;
+    let infix = ["Mul", "Div", "Add", "Sub", "Pow", "IntDiv", "Mod", "ShiftL", "ShiftR", "LesserEq", "GreaterEq", "Lesser", "Greater", "Eq", "NotEq", "BoolOr", "BoolAnd", "BitOr", "BitAnd", "BitXor"];
+    let prefix = ["Sub", "BoolNot", "Complement"];
+    let n = |s: &str| VariableName::from_string(s);
+    match node {
+        "number" => Number(meta(), BigInt::from(5)),
+        "variable" => var("v0"),
+        "infix" => InfixOp { meta: meta(), lhe: Box::new(var("v0")), infix_op: infix_op(infix[op]), rhe: Box::new(var("v1")) },
+        "prefix" => PrefixOp { meta: meta(), prefix_op: prefix_op(prefix[op]), rhe: Box::new(var("v0")) },
+        "switch" => SwitchOp { meta: meta(), cond: Box::new(var("v0")), if_true: Box::new(var("v1")), if_false: Box::new(var("v2")) },
+        "call" => Call { meta: meta(), name: "f".to_string(), args: vec![var("v0"), var("v1")] },
+        "inline_array" => InlineArray { meta: meta(), values: vec![var("v0"), var("v1")] },
+        "access" => Access { meta: meta(), var: n("v0"), access: vec![AccessType::ArrayAccess(Box::new(var("v1")))] },
+        "update" => Update { meta: meta(), var: n("v0"), access: vec![AccessType::ArrayAccess(Box::new(var("v1")))], rhe: Box::new(var("v2")) },
+        "phi" => Phi { meta: meta(), args: vec![n("v0"), n("v1"), n("v2")] },
+        _ => panic!("unknown node {node}"),
+    }
+}
+
+/// degree rule <node> <op> <K|U>:<lo>:<hi>:<L|S> x3   -> "<start> <end>" | "None"
+fn degree_rule_cmd(w: &[&str]) -> String {
+    let node = w[0];
+    let op: usize = w[1].parse().unwrap();
+    let mut env = DegreeEnvironment::new();
+    for (i, spec) in w[2..].iter().enumerate() {
+        let f: Vec<&str> = spec.split(':').collect();
+        let name = VariableName::from_string(format!("v{i}"));
+        if f[0] == "K" {
+            env.set_degree(&name, &DegreeRange::new(deg(f[1]), deg(f[2])));
+        }
+        let ty = if f[3] == "L" { VariableType::Local } else { VariableType::Signal(SignalType::Intermediate, Vec::new()) };
+        env.set_type(&name, &ty);
+    }
+    match node {
+        "subst" => {
+            let w1 = VariableName::from_string("w").with_version(1);
+            env.set_type(&w1, &VariableType::Local);
+            let rhe = Expression::InfixOp { meta: meta(), lhe: Box::new(var("v0")), infix_op: ExpressionInfixOpcode::Mul, rhe: Box::new(var("v1")) };
+            let mut st = Statement::Substitution { meta: meta(), var: w1.clone(), op: AssignOp::AssignLocalOrComponent, rhe };
+            while st.propagate_degrees(&mut env) {}
+            show_range(env.degree(&w1))
+        }
+        "decl" => {
+            let s1 = VariableName::from_string("s");
+            let mut st = Statement::Declaration {
+                meta: meta(),
+                names: program_structure::nonempty_vec::NonEmptyVec::new(s1.clone()),
+                var_type: VariableType::Signal(SignalType::Input, Vec::new()),
+                dimensions: Vec::new(),
+            };
+            while st.propagate_degrees(&mut env) {}
+            show_range(env.degree(&s1))
+        }
+        _ => {
+            let mut e = build_node(node, op);
+            while e.propagate_degrees(&env) {}
+            show_range(e.degree())
+        }
+    }
+}
+
+/// rule value <node> <N:0|F:v|B:b> x3  -> "F v" | "B b" | "None"  (statements: "Pub ...")
+fn value_rule_cmd(w: &[&str]) -> String {
+    let node = w[0];
+    let mut env = ValueEnvironment::new(&UsefulConstants::new(&Curve::Bn254));
+    for (i, spec) in w[1..].iter().enumerate() {
+        let f: Vec<&str> = spec.split(':').collect();
+        let name = VariableName::from_string(format!("v{i}"));
+        match f[0] {
+            "F" => { env.add_variable(&name, &ValueReduction::FieldElement { value: BigInt::parse_bytes(f[1].as_bytes(), 10).unwrap() }); }
+            "B" => { env.add_variable(&name, &ValueReduction::Boolean { value: f[1] == "true" }); }
+            _ => {}
+        }
+    }
+    let publish = |var: VariableName, rhe: Expression, op: AssignOp, env: &mut ValueEnvironment| -> String {
+        let mut st = Statement::Substitution { meta: meta(), var: var.clone(), op, rhe };
+        while st.propagate_values(env) {}
+        format!("Pub {}", show_value(env.get_variable(&var)))
+    };
+    match node {
+        "subst" => publish(VariableName::from_string("w").with_version(1), var("v0"), AssignOp::AssignLocalOrComponent, &mut env),
+        "subst_signal" => publish(VariableName::from_string("sig"), var("v0"), AssignOp::AssignSignal, &mut env),
+        "subst_update" => {
+            let rhe = Expression::Update {
+                meta: meta(),
+                var: VariableName::from_string("w").with_version(0),
+                access: vec![AccessType::ArrayAccess(Box::new(Expression::Number(meta(), BigInt::from(0))))],
+                rhe: Box::new(var("v0")),
+            };
+            publish(VariableName::from_string("w").with_version(1), rhe, AssignOp::AssignLocalOrComponent, &mut env)
+        }
+        "number" => {
+            let mut e = Expression::Number(meta(), BigInt::from(7));
+            while e.propagate_values(&mut env) {}
+            show_value(e.value())
+        }
+        "infix" | "prefix" => {
+            let mut e = if node == "infix" { build_node("infix", 3) } else { build_node("prefix", 0) };
+            while e.propagate_values(&mut env) {}
+            show_value(e.value())
+        }
+        _ => {
+            let mut e = build_node(node, 0);
+            while e.propagate_values(&mut env) {}
+            show_value(e.value())
+        }
+    }
+}
+
 struct Node {
     index: Index,
     preds: IndexSet,
@@ -240,6 +351,7 @@ fn main() {
             "degree" => degree_cmd(&w[1..]),
             "value" => value_cmd(&w[1..]),
             "domtree" => domtree_cmd(&w[1..]),
+            "rule" if w.len() > 2 && w[1] == "value" => value_rule_cmd(&w[2..]),
             _ => "UNKNOWN".to_string(),
         });
         let s = match r {
